@@ -149,7 +149,7 @@ func Run(c *fw.Ctx) {
 	c.Assume("the AUTO_INCREMENT counter is not given back by ROLLBACK TO SAVEPOINT (as PostgreSQL sequences); savepoint names are unique and never reused after ROLLBACK TO / RELEASE")
 	c.Assume("a failed statement aborts the whole transaction (Engine.ExecPreparedStmts cancels it)")
 	r := c.Rand("c13/cases")
-	n := c.N(150, 5000)
+	n := c.N(300, 5000)
 	var cases [][]byte
 	for i := 0; i < n; i++ {
 		cs := caseSpec{Idx: i, Sessions: 1 + r.IntN(6), TxPer: 4 + r.IntN(5), Variant: r.IntN(4)}
